@@ -46,6 +46,7 @@ pub struct HEvent {
     pub cmds: Vec<String>,
     pub sends: Vec<(u64, Vec<u8>)>,
     pub timer_cmds: Vec<(bool, u8)>,
+    pub unserializable: u32,
 }
 
 #[derive(Clone)]
@@ -79,7 +80,11 @@ impl S3Actor {
                 RCmd::Send(d, m) => {
                     let d = self.fix(d);
                     let m = M { tag: m.tag, who: m.who.map(|w| self.fix(w)) };
-                    ev.sends.push((id_u64(d), serde_json::to_vec(&m).unwrap()));
+                    if let Ok(bytes) = ser(&m) {
+                        ev.sends.push((id_u64(d), bytes));
+                    } else {
+                        ev.unserializable += 1;
+                    }
                     o.send(d, m);
                 }
                 RCmd::SetTimer(t) => {
@@ -102,7 +107,7 @@ impl S3Actor {
         }
     }
     fn ev(&self, kind: HKind, before: Option<&S>) -> HEvent {
-        HEvent { actor: self.idx, kind, before: before.map(|s| format!("{:?}", s)), after: String::new(), t_enter: self.sched.clock_ns(), t_exit: 0, cmds: vec![], sends: vec![], timer_cmds: vec![] }
+        HEvent { actor: self.idx, kind, before: before.map(|s| format!("{:?}", s)), after: String::new(), t_enter: self.sched.clock_ns(), t_exit: 0, cmds: vec![], sends: vec![], timer_cmds: vec![], unserializable: 0 }
     }
     fn done(&self, mut ev: HEvent, after: &S) {
         ev.after = format!("{:?}", after);
@@ -152,11 +157,16 @@ impl Actor for S3Actor {
     }
 }
 
-fn ser(m: &M) -> Result<Vec<u8>, serde_json::Error> {
-    serde_json::to_vec(m)
+/// Messages with this tag cannot be serialized (the codec is allowed to fail).
+pub const UNSERIALIZABLE_TAG: u8 = 3;
+fn ser(m: &M) -> Result<Vec<u8>, String> {
+    if m.tag == UNSERIALIZABLE_TAG {
+        return Err("this message cannot be serialized".to_string());
+    }
+    serde_json::to_vec(m).map_err(|e| e.to_string())
 }
-fn de(b: &[u8]) -> Result<M, serde_json::Error> {
-    serde_json::from_slice(b)
+fn de(b: &[u8]) -> Result<M, String> {
+    serde_json::from_slice(b).map_err(|e| e.to_string())
 }
 
 pub fn gen_s3(seed: u64) -> S3Scenario {
@@ -164,7 +174,7 @@ pub fn gen_s3(seed: u64) -> S3Scenario {
     let mut g = SysGen::default();
     g.max_actors = 4;
     g.states = rng.range(1, 3) as u8;
-    g.tags = rng.range(1, 3) as u8;
+    g.tags = rng.range(1, 4) as u8;
     g.timers = rng.range(1, 3) as u8;
     g.randoms = 2;
     g.use_timers = rng.chance(4, 5);
@@ -385,6 +395,7 @@ pub fn judge(sc: &S3Scenario, obs: &S3Obs) -> (Vec<Violation>, Counters) {
                 v.push(Violation::new("C17", "send-mismatch", format!("actor {}: handler {:?} emitted sends {:?} but its socket sent {:?}", a, e.kind, e.sends.iter().map(|s| (format!("{:x}", s.0), String::from_utf8_lossy(&s.1).to_string())).collect::<Vec<_>>(), seen.iter().map(|s| (format!("{:x}", s.0), String::from_utf8_lossy(&s.1).to_string())).collect::<Vec<_>>())));
             }
             c.add("sends_checked", e.sends.len() as u64);
+            c.add("fault_unserializable_message_sent", e.unserializable as u64);
         }
         c.add("probe_datagrams_delivered_not_handed", recvd.iter().filter(|r| !r.3 && de(&r.1).is_ok()).count() as u64);
         c.add("fault_undecodable_datagram_delivered", recvd.iter().filter(|r| de(&r.1).is_err()).count() as u64);
